@@ -9,7 +9,9 @@ step/4 (on the grid, exact half-way ties, off the grid) -> compared exactly.  To
 doubles, end points kept away from half-way points -> compared within 1e-9 (relative to the scale).
 Integer-dtype diagrams with end points off the grid, float32 / Fortran-order / strided / read-only arrays, and call
 histories (harness/history.py: landscape objects observed, used as operands, observed again; one diagram swept
-through several grids) are judged by the same predicate."""
+through several grids; one diagram shape in several units) are judged by the same predicate.  Magnitude classes: tiny /
+huge absolute scales (grid steps down to 2^-300), offsets 2^10..2^30 / 1e3..1e7 with short bars, grids of 1025-5000 nodes
+with a few bars."""
 from fractions import Fraction
 
 from .. import core, history
@@ -46,7 +48,17 @@ RULE = ("seeded generator; exact family = dyadic start/stop, n-1 in {1,2,4,8,16,
         "compute_landscape again, snap_pl on the same and on another grid, lc_approx, average_approx, a rejected sum of landscapes on "
         "different grids; the results are not judged), then all observed again in random order; sweep = one diagram through other "
         "num_steps / a 3x wider grid / a degree that does not exist (rejected) / another memory layout and back to the first "
-        "configuration. A history is non-trivial when at least two of its steps are. A case is non-trivial when the call succeeds, some node receives a value and "
+        "configuration; scales (every 7th history) = one diagram shape (exact family or mag_unit) at scale 1, then times 2^k for 2-4 of "
+        "k = -10,-20,-30,-34,-40,-50,+30, then at scale 1 again. What persim RETURNS from fit_transform / vectorize is overwritten "
+        "(history.scribble) after its values have been read. "
+        "Magnitudes (36 + 36 cases quick / 900 + 900 thorough; also bases of operands / sweep histories and of the failing-input search): exact family "
+        "classes tiny (scale 2^-34..2^-300: grid steps below 1e-10), huge (2^40..2^300), offset (|start| = 2^10..2^30, step 2^-14..2^-2, "
+        "at most 47 significant bits; never as float32), compared exactly; tolerance-family classes mag_tiny (coordinates of order "
+        "1e-7..1e-13, rarely 1e-20..1e-290), mag_huge (1e8..1e15, 1e30..1e290), mag_offset (|start| 1e3..1e7, width 1e-7..1e-2 of it, end "
+        "points 1e-3 step away from half-way points), mag_unit, compared within 1e-12 * max(|start|,|stop|) - no absolute floor. "
+        "Fine grids (3 quick / 18 thorough): 2-4 bars on 1025/2049/4097 dyadic nodes (step down to 2^-43) or 1100/1500/2500/4100/5000 "
+        "nodes at scales 1..1e-8, judged like the size class at the nodes around every end point and mid-point of a bar (Coq model not "
+        "run: skip:size). A history is non-trivial when at least two of its steps are. A case is non-trivial when the call succeeds, some node receives a value and "
         "either an end point is off the grid or two bars overlap at a node (depth >= 2); distinct = distinct JSON input")
 TRUSTED_BASE = [
     "Coq 8.16.1 kernel, vm_compute (no native_compute)",
@@ -62,6 +74,10 @@ ASSUMPTIONS = [
     "exact family: every operation of the code is exact in binary64 on the generated dyadic inputs",
     "tolerance family: binary64 rounding is bounded by the 1e-9 relative tolerance, not proved; inputs avoid "
     "half-way points so that rounding cannot flip a snap decision",
+    "magnitude classes of the tolerance family (mag_*, fine_tol): binary64 rounding is bounded by 1e-12 * max(|start|, |stop|) "
+    "(every value the code writes is j * step, step = (stop - start) / (n - 1): a few ulp of the larger grid end), not proved",
+    "exact family at other magnitudes: scaling by a power of two and offsets within 47 significant bits keep every operation exact "
+    "in binary64 (no subnormals: scales >= 2^-300)",
     "PersistenceLandscaper.fit with an infinite death and stop=None is outside the quantifier (finite diagrams)",
     "a diagram is the same finite diagram whatever the dtype (float64, float32, int64, int32: the cast is applied only when it "
     "is exact) and memory layout of its array; the model sees the exact rational values",
